@@ -18,6 +18,7 @@ type PageNumber = u8;
 mod state {
     pub(crate) use super::state_get_block_hashes as get_block_hashes;
     pub(crate) use super::insert_block;
+    pub(crate) use super::blockchain_info;
 }
 
 // wf_sync: a stored partial response has not yet received more follow-ups than it announced
